@@ -604,7 +604,7 @@ func TestC03(t *testing.T) {
 	pbt.Main(t, pbt.Prop[Case]{
 		ID: "C03", Name: "bucketing",
 		Rule: "rapid-generated histogram cases: value or duration specification of 0..64 finite bounds (hostile constants, negatives, +-0, duplicates, unsorted, +-MaxFloat64 / int64 extremes; nil = scope default incl. a root DefaultBuckets option; empty non-nil), a history of 1..24 RecordValue/RecordDuration calls (samples equal to a bound, one ulp / one ns either side, +-Inf, NaN payloads, extremes, random) interleaved with report passes, observed through a plain reporter, a cached reporter (bucket allocations + ReportSamples) or a test-scope snapshot. Oracle: reference tiling (sorted copy + terminal bucket) and linear-scan bucket choice; per-upper-bound delivered counts == expected, NaN in at most one bucket, conservation, type guard, no panic, caller slice untouched. Non-trivial: a sample on or next to a bound or non-finite, or an unsorted/duplicated spec. Distinct: FNV-64 of the case JSON." + fmt.Sprint(""),
-		Gen:  gen, Run: run,
+		Gen:  gen, Run: run, HangAfter: 20 * time.Second,
 	})
 }
 
